@@ -115,7 +115,7 @@ inline void gp_handler(int) { g_faulted = 1; siglongjmp(g_jb, 1); }
 inline void gp_arm() { g_faulted = 0; struct sigaction sa; memset(&sa, 0, sizeof sa); sa.sa_handler = gp_handler; sa.sa_flags = SA_ONSTACK | SA_NODEFER;
                        sigaction(SIGSEGV, &sa, &g_old_segv); sigaction(SIGBUS, &sa, &g_old_bus); }
 inline void gp_disarm() { sigaction(SIGSEGV, &g_old_segv, nullptr); sigaction(SIGBUS, &g_old_bus, nullptr); }
-enum Gen { G_ANY = 0, G_NZB = 1, G_EXDIV = 2, G_EXDIV_SV = 3, G_SQUARE = 4, G_PROD = 5, G_POS = 6, G_POSNEG = 7, G_SEQ = 8, G_UNIT = 9, G_EXDIV_RV = 10 };
+enum Gen { G_ANY = 0, G_NZB = 1, G_EXDIV = 2, G_EXDIV_SV = 3, G_SQUARE = 4, G_PROD = 5, G_POS = 6, G_POSNEG = 7, G_SEQ = 8, G_UNIT = 9, G_EXDIV_RV = 10, G_EXTREME = 11 };
 
 template<class R> inline R small_r(vt::Rng& r, int range, int sc, bool nonzero = false) {
     int n; do { n = r.range(-range, range); } while (nonzero && n == 0);
@@ -211,6 +211,8 @@ template<class T, class ABI> struct K {
         vt::g_cur_case = cid.c_str();
         vt::Rng r(vt::hash_str(cid.c_str()) ^ (g_seed * 0x9E3779B97F4A7C15ull));
         for (size_t i = 0; i < N; ++i) A[i] = GenT<T>::one(r, mode, gen, range, sc, 0, (int)i);
+        // horizontal minimum / maximum: the unique extreme sits in lane d mod N (op "minimum" / "maximum")
+        if (gen == G_EXTREME) A[(size_t)d % N] = (T)(R)(op[1] == 'i' ? -(range + 7) : (range + 7));
         for (size_t i = 0; i < N; ++i) B[i] = GenT<T>::one(r, mode, gen, range, sc, 1, (int)i);
         for (size_t i = 0; i < N; ++i) C[i] = GenT<T>::one(r, mode, gen, range, sc, 2, (int)i);
         s = GenT<T>::one(r, mode, gen, range, sc, 3, 0);
